@@ -403,6 +403,13 @@ func (w *worker) judge(r request) judged {
 	all4xx := true
 	for i, s := range w.stores {
 		x := s.do(r)
+		if x.Status < 0 {
+			x = s.do(r)
+		}
+		if x.Status < 0 {
+			cleanup()
+			ev.Unbound("fiber app.Test could not read the response of " + reqText(r) + ": " + string(x.Body))
+		}
 		j.Resp[i] = x
 		j.Statuses[i] = x.Status
 		c[i] = canon(x)
@@ -562,7 +569,11 @@ func (g *grid) bypass(x elem) string {
 	if x.s != 0 {
 		parts = append(parts, "skeleton:"+g.sk[x.s].Name)
 	}
-	parts = append(parts, g.fl[x.f].Family)
+	fam := g.fl[x.f].Family
+	if x.d != 0 && strings.HasPrefix(fam, "fn-plain:") {
+		fam = "fn-plain" // the decoy is what gets the call through, whichever denylisted function it is
+	}
+	parts = append(parts, fam)
 	if x.d != 0 {
 		parts = append(parts, "decoy:"+g.dc[x.d].Name)
 	}
@@ -672,7 +683,7 @@ func main() {
 	}
 	g.eps = []string{"/api/v1/query", "/api/v1/query/estimate"}
 	if !run.Quick() {
-		g.eps = append(g.eps, "/api/v1/query/arrow", "/api/v1/query/msgpack")
+		g.eps = append(g.eps, "/api/v1/query/msgpack")
 	}
 	size := len(g.sk) * len(g.fl) * len(g.dc) * len(headers)
 	g.verdict = make([][]uint8, len(g.eps))
@@ -680,6 +691,23 @@ func main() {
 		g.verdict[e] = bytes.Repeat([]byte{vNA}, size)
 	}
 
+	if os.Getenv("C14_COUNT") != "" {
+		n := 0
+		for _, si := range g.skSel {
+			for _, fi := range g.flSel {
+				for _, di := range g.dcSel {
+					for h := range headers {
+						if _, ok := g.request(0, si, fi, di, h); ok {
+							n++
+						}
+					}
+				}
+			}
+		}
+		fmt.Printf("tier=%s skeletons=%d fillers=%d decoys=%d statements=%d listing=%d\n", run.Tier, len(g.skSel), len(g.flSel), len(g.dcSel), n, len(buildListing(run.Quick())))
+		cleanup()
+		return
+	}
 	nw := runtime.NumCPU()
 	if nw > 16 {
 		nw = 16
@@ -701,6 +729,13 @@ func main() {
 	for _, s := range g.skSel {
 		for _, f := range g.flSel {
 			units = append(units, unit{s, f})
+		}
+	}
+	if s := os.Getenv("C14_LIMIT_UNITS"); s != "" { // development only: measure cost on a prefix
+		var n int
+		fmt.Sscanf(s, "%d", &n)
+		if n < len(units) {
+			units = units[:n]
 		}
 	}
 	var next int64
@@ -741,7 +776,7 @@ func main() {
 								continue
 							}
 							if e >= 2 && !anyExec {
-								continue // arrow / msgpack: only statements some store executed
+								continue // msgpack: only statements some store executed
 							}
 							j := w.judge(r)
 							g.verdict[e][idx] = j.V
@@ -777,40 +812,19 @@ func main() {
 	wg.Wait()
 
 	// ---- phase 2: classes -----------------------------------------------------------------------------------
+	// every violating case is minimised; cases are one class when they violate the same way (oracle kind) and
+	// their minimal forms differ from the canonical statement in the same dimensions (bypass). The class is
+	// represented by its first minimal form in (core first, table order) — the same one in both tiers.
 	type class struct {
 		rep   elem
 		count int
 	}
-	classes := map[elem]*class{}
-	rawViol := 0
-	for e := range g.eps {
-		for _, s := range g.skSel {
-			for _, f := range g.flSel {
-				for _, d := range g.dcSel {
-					for h := range headers {
-						x := elem{e, s, f, d, h}
-						if primary(g.v(x)) == 0 {
-							continue
-						}
-						rawViol++
-						m := g.reduce(x)
-						c := classes[m]
-						if c == nil {
-							c = &class{rep: m}
-							classes[m] = c
-						}
-						c.count++
-					}
-				}
-			}
+	before := func(a, b elem) bool {
+		ca := g.sk[a.s].Core && g.fl[a.f].Core && g.dc[a.d].Core && a.e < 2
+		cb := g.sk[b.s].Core && g.fl[b.f].Core && g.dc[b.d].Core && b.e < 2
+		if ca != cb {
+			return ca
 		}
-	}
-	reps := make([]elem, 0, len(classes))
-	for m := range classes {
-		reps = append(reps, m)
-	}
-	sort.Slice(reps, func(i, j int) bool {
-		a, b := reps[i], reps[j]
 		if a.s != b.s {
 			return a.s < b.s
 		}
@@ -824,9 +838,42 @@ func main() {
 			return a.h < b.h
 		}
 		return a.e < b.e
-	})
+	}
+	classes := map[string]*class{}
+	rawViol := 0
+	for e := range g.eps {
+		for _, s := range g.skSel {
+			for _, f := range g.flSel {
+				for _, d := range g.dcSel {
+					for h := range headers {
+						x := elem{e, s, f, d, h}
+						if primary(g.v(x)) == 0 {
+							continue
+						}
+						rawViol++
+						m := g.reduce(x)
+						key := kindName(primary(g.v(m))) + "|" + g.bypass(m)
+						c := classes[key]
+						if c == nil {
+							c = &class{rep: m}
+							classes[key] = c
+						} else if before(m, c.rep) {
+							c.rep = m
+						}
+						c.count++
+					}
+				}
+			}
+		}
+	}
+	keys := make([]string, 0, len(classes))
+	for k := range classes {
+		keys = append(keys, k)
+	}
+	sort.Strings(keys)
 	w0 := workers[0]
-	for _, m := range reps {
+	for _, key := range keys {
+		m := classes[key].rep
 		r, _ := g.request(m.e, m.s, m.f, m.d, m.h)
 		// replay the minimal case twice: the observation must be the one the table holds
 		j := w0.judge(r)
@@ -835,17 +882,16 @@ func main() {
 			cleanup()
 			ev.Nondeterminism(fmt.Sprintf("verdict of %q changed on replay: table=%d replay=%d,%d", reqText(r), g.v(m), j.V, j2.V))
 		}
-		k := primary(j.V)
-		sigText := fmt.Sprintf("%s|%s|%s", kindName(k), g.bypass(m), reqText(r))
-		desc := fmt.Sprintf("%d enumerated cases minimise to this one. %s", classes[m].count, describe(j))
-		for i := 0; i < classes[m].count; i++ {
+		sigText := key + "|" + reqText(r)
+		desc := fmt.Sprintf("%d enumerated cases minimise to this class. %s", classes[key].count, describe(j))
+		for i := 0; i < classes[key].count; i++ {
 			run.Violate(sigText, desc, map[string]any{"request": r, "root": "{ROOT} = storage root of the store", "statuses": j.Statuses,
 				"opened_canaryA_store": j.Resp[0].Opened, "permission_checks": fmt.Sprint(j.Resp[0].Checks)})
 		}
 	}
 
 	// ---- the SHOW / listing product ---------------------------------------------------------------------------
-	listing := buildListing()
+	listing := buildListing(run.Quick())
 	seen := map[string]bool{}
 	var nList, nListExec int64
 	for _, r := range listing {
